@@ -64,6 +64,10 @@ fn collect(args: &[String]) -> Vec<String> {
             vm::exhaust_child(&args);
             vec![]
         }
+        Some("fsink-open-probe") => {
+            fsink::open_probe();
+            vec![]
+        }
         Some("fsink") => fsink::run(&args),
         Some("fsink-child") => {
             fsink::child(&args);
